@@ -365,6 +365,15 @@ def expandLiterals (text : List Char) (literals : List (List (List Char))) : Opt
   ((rustLines text).mapM (expandLine literals)).map
     (fun ls => (ls.flatten.map (· ++ ['\n'])).flatten)
 
+/-- One content line as `expand_literals` emits it: empty if the line is empty, else indented. -/
+def indentLine (margin L : List Char) : List Char := if L.isEmpty then [] else margin ++ L
+
+/-- The text between the `"""` delimiters of a formatted literal whose placeholder line sat at
+    indentation `margin`: the newline after the opening delimiter, the content lines (`indentLine`)
+    separated by newlines, a newline and the margin before the closing delimiter. -/
+def renderedRaw (margin : List Char) (Ls : List (List Char)) : List Char :=
+  '\n' :: (joinNl (Ls.map (indentLine margin)) ++ '\n' :: margin)
+
 /-! ### `collapse_blanks` -/
 
 /-- `str::trim` is empty -/
